@@ -458,7 +458,7 @@ func runCase(idx int, k kase, keys []ech.Key, measure bool) (res result) {
 		}
 	}
 	if measure {
-		harness = len(sess.T.Out)*2 + 64*len(sess.T.Writes) + sess.T.Pending() + len(k.First)
+		harness = len(sess.T.Out)*2 + 64*len(sess.T.Writes) + sess.T.Pending() + len(k.First) + sess.HarnessBytes()
 		after := heapInUse()
 		if after > before && int(after-before)-harness > memBudget {
 			// measure again to rule out noise: rerun the whole case
